@@ -1,6 +1,9 @@
 import Proofs.ObsValue
 import Proofs.ObsMulti
 import Proofs.ObsGenEq
+import Proofs.ObsValGenEq
+import Mathlib.Tactic.Linarith
+import Mathlib.Tactic.NormNum
 
 /-!
 # C15 — observation handling is value-correct and batch-, agent- and env-consistent
@@ -577,3 +580,287 @@ example : get_vect_dim 2 (.dict false [("pos", .arr .ndarray [7, 2]), ("lane", .
     (.dict [("lane", .discrete 3), ("pos", .box [2])]) = .ok 7 := by rfl
 
 end C15Src
+
+/-!
+## C15 with VALUES over the source translation (`Gen/ObsValGen.lean`)
+
+`harness/py2lean_obsval.py` translates `maybe_add_batch_dim`, `apply_image_normalization`, the leaf chain of
+`preprocess_observation` (per space class) and the multi-agent routing functions `get_homo_id`, `_agent_position`,
+`assemble_/disassemble_homogeneous_outputs`, `stack_critic_observations` WITH values: a float is an exact rational or
+an IEEE special, so a division by zero in the source is visible.  `Proofs/ObsValGenEq.lean` proves the generated
+definitions equal to the model (`applyNormV true` is the repaired normalisation, `normalizeFound` the division as
+found).  Below: the model-level value theorems for both variants, then the restatements over the generated code.
+-/
+namespace Obs
+
+/-- **Normalisation, repaired code, FULL statement (no `low ≠ high` guard).**  For finite bounds `lo ≤ hi`, every
+    `x ∈ [lo, hi]` maps into `[0, 1]`; `lo ↦ 0`; `hi ↦ 1` when `lo < hi`; an element whose bounds coincide maps to `0`;
+    monotone.  The result is a rational: always finite. -/
+theorem C15_normalize_fixed_bounds (lo hi x : Rat) (h : lo ≤ hi) (h1 : lo ≤ x) (h2 : x ≤ hi) :
+    (0 ≤ normalizeFixed lo hi x ∧ normalizeFixed lo hi x ≤ 1) ∧ normalizeFixed lo hi lo = 0 ∧
+    (lo < hi → normalizeFixed lo hi hi = 1) ∧ (lo = hi → normalizeFixed lo hi x = 0) ∧
+    ∀ y, x ≤ y → normalizeFixed lo hi x ≤ normalizeFixed lo hi y := by
+  have hs : 0 < scaleOf lo hi := by
+    unfold scaleOf
+    by_cases he : hi - lo = 0
+    · simp [he]
+    · rw [if_neg he]
+      rcases lt_or_eq_of_le h with hl | hl
+      · linarith
+      · exact absurd (by rw [hl]; exact sub_self hi) he
+  have hle : x - lo ≤ scaleOf lo hi := by
+    unfold scaleOf
+    by_cases he : hi - lo = 0
+    · rw [if_pos he]; linarith
+    · rw [if_neg he]; linarith
+  refine ⟨⟨div_nonneg (by linarith) hs.le, (div_le_one hs).mpr hle⟩, by simp [normalizeFixed], ?_, ?_, ?_⟩
+  · intro hl
+    have : hi - lo ≠ 0 := by intro h0; linarith
+    simp only [normalizeFixed, scaleOf, if_neg this]
+    exact div_self this
+  · intro he
+    have : x = lo := le_antisymm (by rw [he]; exact h2) h1
+    simp [normalizeFixed, this]
+  · intro y hy
+    exact div_le_div_of_nonneg_right (by linarith) hs.le
+
+/-- under the guard the repaired scaling, the scaling as found and the guarded model `normalize` coincide -/
+theorem C15_normalize_variants_agree (lo hi x : Rat) (hg : hi - lo ≠ 0) :
+    normalizeFixed lo hi x = normalize lo hi x ∧ normalizeV true lo hi x = .fin (normalize lo hi x) ∧
+    normalizeV false lo hi x = .fin (normalize lo hi x) := by
+  simp [normalizeFixed, normalize, normalizeV, normalizeFound, scaleOf, hg]
+
+/-- **As found (witness).**  Without the guard the code as found was not value-correct: the legal observation `0` of
+    a pixel with bounds `[0, 0]` became `nan`, an out-of-range `3` became `+inf`; the repaired code gives `0`
+    (finding `C15-normalize-degenerate-bound`, repaired in /repo). -/
+theorem C15_normalize_found_witness :
+    normalizeV false 0 0 0 = .nan ∧ normalizeV false 0 0 3 = .pinf ∧ normalizeV true 0 0 0 = .fin 0 ∧
+    ¬ (∃ q, normalizeV false 0 0 0 = .fin q) := by
+  have e : normalizeV false 0 0 0 = .nan := by norm_num [normalizeV, normalizeFound]
+  refine ⟨e, by norm_num [normalizeV, normalizeFound], by norm_num [normalizeV, normalizeFixed], ?_⟩
+  rintro ⟨q, hq⟩
+  rw [e] at hq; cases hq
+
+theorem normRowV_getElem (rep : Bool) (l h r : List Rat) (i : Nat) (hi : i < (normRowV rep l h r).length)
+    (h1 : i < l.length) (h2 : i < h.length) (h3 : i < r.length) :
+    (normRowV rep l h r)[i] = normalizeV rep l[i] h[i] r[i] := by
+  simp [normRowV]
+
+/-- **Batching commutes (row-wise), both variants.**  With finite bounds a batch (any leading shape) is scaled image by
+    image with the same bounds: element `i` of every row with `lo[i]`, `hi[i]` -/
+theorem C15_normalize_v_rowwise (rep : Bool) (p : List Nat) (hp : 0 < numel p) (l h : List Rat)
+    (hl : l.length = numel p) (hh : h.length = numel p) (batch : List Nat) (rows : List (List Rat))
+    (hv : ∀ r ∈ rows, r.length = numel p) :
+    applyNormV rep p (l.map some) (h.map some) ⟨batch ++ p, rows.flatten⟩ =
+      .ok (batch ++ p, (rows.map (normRowV rep l h)).flatten) := by
+  have e1 : allOk (l.map some) = some l := by simpa using allOk_map_some (fun x => some x) id l (by simp)
+  have e2 : allOk (h.map some) = some h := by simpa using allOk_map_some (fun x => some x) id h (by simp)
+  simp only [applyNormV, allSomeR, e1, e2, endsWith_append, chunk_flatten _ hp rows hv]
+  rw [if_neg (by simp; omega)]
+
+end Obs
+
+namespace C15ValSrc
+open ObsValGen ObsValGenEq
+
+/-- every generated VALUE definition equals the hand-written model function -/
+theorem C15_source_translation_value_equalities (nd isT : Bool) (s p : List Nat) (d dm : List Rat)
+    (lo hi : List (Option Rat)) (hp : 0 < Obs.numel p) (hlo : lo.length = Obs.numel p)
+    (hhi : hi.length = Obs.numel p) (batch : List Nat) (rows : List (List Rat))
+    (hv : ∀ r ∈ rows, r.length = Obs.numel p) (n : Nat) (a : String) (ids : List String) :
+    maybe_add_batch_dim nd ⟨s, d⟩ p = projShape d (Obs.maybeAddBatchDim ⟨s, dm⟩ p) ∧
+    apply_image_normalization isT (tX ⟨batch ++ p, rows.flatten⟩) (boxOf p lo hi) =
+      projV (Obs.applyNormV true p lo hi ⟨batch ++ p, rows.flatten⟩) ∧
+    (do let t ← tLong (tX ⟨s, d⟩); let o ← fOneHot t n; pure (tFloat o) : M (T X)) =
+      (match Obs.oneHotAll n d with
+       | some r => .ok ⟨s ++ [n], r.map X.fin⟩
+       | none => .error .onehot) ∧
+    get_homo_id a = .ok (Obs.homoId a) ∧ _agent_position ids a = .ok (Obs.agentPosition ids a) :=
+  ⟨gen_maybe_add_batch_dim_eq nd s d dm p,
+   gen_apply_image_normalization_eq isT p lo hi hp hlo hhi batch rows hv,
+   gen_one_hot_eq n s d, gen_get_homo_id_eq a, gen_agent_position_eq ids a⟩
+
+theorem normRowV_fin (l h r : List Rat) : ∀ y ∈ Obs.normRowV true l h r, ∃ q, y = .fin q := by
+  intro y hy
+  simp only [Obs.normRowV, List.mem_iff_getElem] at hy
+  obtain ⟨i, hi, rfl⟩ := hy
+  simp [Obs.normalizeV]
+
+/-- **Normalisation over the generated code (the repaired source), full statement.**  For a rank-anything Box with
+    FINITE bounds (no guard `low ≠ high`), a batch of any leading shape is accepted, keeps its shape, is scaled image by
+    image (`normRowV true`: element `i` with `low[i]`, `high[i]`, a zero scale replaced by one), and EVERY element of the
+    result is finite. -/
+theorem C15_source_translation_normalize (isT : Bool) (p : List Nat) (hp : 0 < Obs.numel p) (l h : List Rat)
+    (hl : l.length = Obs.numel p) (hh : h.length = Obs.numel p) (batch : List Nat) (rows : List (List Rat))
+    (hv : ∀ r ∈ rows, r.length = Obs.numel p) :
+    apply_image_normalization isT (tX ⟨batch ++ p, rows.flatten⟩) (boxOf p (l.map some) (h.map some)) =
+      .ok ⟨batch ++ p, ((rows.map (Obs.normRowV true l h)).flatten).map toX⟩ ∧
+    ∀ y ∈ ((rows.map (Obs.normRowV true l h)).flatten).map toX, ∃ q, y = X.fin q := by
+  constructor
+  · rw [gen_apply_image_normalization_eq isT p _ _ hp (by simpa using hl) (by simpa using hh) batch rows hv,
+      Obs.C15_normalize_v_rowwise true p hp l h hl hh batch rows hv]
+    rfl
+  · intro y hy
+    simp only [List.mem_map, List.mem_flatten] at hy
+    obtain ⟨z, ⟨row, ⟨r, _, rfl⟩, hz⟩, rfl⟩ := hy
+    obtain ⟨q, rfl⟩ := normRowV_fin l h r z hz
+    exact ⟨q, rfl⟩
+
+/-- element `i` of a scaled image is `normalizeFixed low[i] high[i] x[i]` — in `[0, 1]` for `x[i]` within the bounds,
+    `0` where the bounds coincide (`Obs.C15_normalize_fixed_bounds`) -/
+theorem C15_source_translation_normalize_element (l h r : List Rat) (i : Nat)
+    (hi : i < (Obs.normRowV true l h r).length) (h1 : i < l.length) (h2 : i < h.length) (h3 : i < r.length)
+    (hb : l[i] ≤ h[i]) (hx1 : l[i] ≤ r[i]) (hx2 : r[i] ≤ h[i]) :
+    ∃ q, toX (Obs.normRowV true l h r)[i] = X.fin q ∧ 0 ≤ q ∧ q ≤ 1 ∧ (l[i] = h[i] → q = 0) := by
+  refine ⟨Obs.normalizeFixed l[i] h[i] r[i], ?_, ?_⟩
+  · rw [Obs.normRowV_getElem true l h r i hi h1 h2 h3]; simp [Obs.normalizeV, toX]
+  · have := Obs.C15_normalize_fixed_bounds l[i] h[i] r[i] hb hx1 hx2
+    exact ⟨this.1.1, this.1.2, this.2.2.2.1⟩
+
+/-- **Call condition over the generated code**: `preprocess_observation` scales a Box exactly when its rank is 3 AND
+    `normalize_images` is on; a rank-4 (or rank-2) Box, or normalisation off, only gets its batch dimension -/
+theorem C15_source_translation_normalize_call_condition (t : T X) (sp : Box) (norm : Bool) (hp : sp.shape ≠ []) :
+    (sp.shape.length ≠ 3 ∨ norm = false →
+      preprocess_observation_Box t sp norm = maybe_add_batch_dim false t sp.shape) ∧
+    (sp.shape.length = 3 → preprocess_observation_Box t sp true =
+      (match apply_image_normalization true t sp with
+       | .ok o => maybe_add_batch_dim false o sp.shape
+       | .error e => .error e)) := by
+  constructor
+  · intro h
+    rw [gen_preprocess_box_eq t sp norm hp, if_neg]
+    rintro ⟨h3, hn⟩
+    rcases h with h | h
+    · exact h h3
+    · rw [h] at hn; cases hn
+  · intro h3
+    rw [gen_preprocess_box_eq t sp true hp, if_pos ⟨h3, rfl⟩]
+    cases apply_image_normalization true t sp <;> rfl
+
+/-- **Bypasses over the generated code**: `+inf` anywhere in `high`, or `-inf` anywhere in `low`, returns the
+    observation unchanged (which infinity is looked for in which bound flows from the source) -/
+theorem C15_source_translation_normalize_bypass (isT : Bool) (p : List Nat) (lo hi : List (Option Rat))
+    (hp : 0 < Obs.numel p) (hlo : lo.length = Obs.numel p) (hhi : hi.length = Obs.numel p)
+    (batch : List Nat) (rows : List (List Rat)) (hv : ∀ r ∈ rows, r.length = Obs.numel p)
+    (hinf : Obs.allOk lo = none ∨ Obs.allOk hi = none) :
+    apply_image_normalization isT (tX ⟨batch ++ p, rows.flatten⟩) (boxOf p lo hi) =
+      .ok (tX ⟨batch ++ p, rows.flatten⟩) := by
+  rw [gen_apply_image_normalization_eq isT p lo hi hp hlo hhi batch rows hv]
+  have : Obs.applyNormV true p lo hi ⟨batch ++ p, rows.flatten⟩ =
+      .ok (batch ++ p, rows.flatten.map .fin) := by
+    unfold Obs.applyNormV Obs.allSomeR
+    rcases hinf with h | h
+    · rw [h]
+    · rw [h]; cases Obs.allOk lo <;> rfl
+  rw [this]
+  simp [projV, tX, List.map_map, Function.comp_def, toX]
+
+/-- **As found, over the IEEE arithmetic of the generated code**: the expression `(x - low) / (high - low)` of the
+    source before the repair gives `nan` for the legal value of a pixel whose bounds coincide -/
+theorem C15_source_translation_normalize_found_witness :
+    X.div (X.sub (X.fin 0) (X.fin 0)) (X.sub (X.fin 0) (X.fin 0)) = X.nan ∧
+    ∀ l h x : Rat, X.div (X.sub (X.fin x) (X.fin l)) (X.sub (X.fin h) (X.fin l)) = toX (Obs.normalizeFound l h x) :=
+  ⟨by simp [X.sub, X.div], elem_found⟩
+
+/-- **One-hot values over the generated code**: `F.one_hot(x.long(), n).float()` of in-range integer values is, value
+    by value, the one-hot vector (a `1` at the value's position); a value outside `[0, n)` is an error (torch raises) -/
+theorem C15_source_translation_onehot (n : Nat) (s : List Nat) (vs : List Int) :
+    ((∀ v ∈ vs, 0 ≤ v ∧ v < (n : Int)) →
+      (do let t ← tLong (tX ⟨s, vs.map (fun (v : Int) => (v : Rat))⟩); let o ← fOneHot t n; pure (tFloat o) : M (T X)) =
+        .ok ⟨s ++ [n], ((vs.map (fun (v : Int) => Obs.oneHotVec n v.toNat)).flatten).map X.fin⟩) ∧
+    ((∃ v ∈ vs, v < 0 ∨ (n : Int) ≤ v) →
+      (do let t ← tLong (tX ⟨s, vs.map (fun (v : Int) => (v : Rat))⟩); let o ← fOneHot t n; pure (tFloat o) : M (T X)) =
+        .error .onehot) := by
+  have key : Obs.oneHotAll n (vs.map (fun (v : Int) => (v : Rat))) =
+      (Obs.allOk (vs.map (Obs.oneHot n))).map List.flatten := by
+    simp [Obs.oneHotAll, List.map_map, Function.comp_def, Obs.toLong_intCast]
+  constructor
+  · intro hr
+    rw [gen_one_hot_eq, key]
+    have : Obs.allOk (vs.map (Obs.oneHot n)) = some (vs.map (fun (v : Int) => Obs.oneHotVec n v.toNat)) :=
+      Obs.allOk_map_some _ _ vs (by intro v hv; simp [Obs.oneHot, hr v hv])
+    rw [this]; rfl
+  · rintro ⟨v, hv, hbad⟩
+    rw [gen_one_hot_eq, key]
+    have : Obs.allOk (vs.map (Obs.oneHot n)) = none := by
+      clear key
+      induction vs with
+      | nil => cases hv
+      | cons a r ih =>
+        simp only [List.map_cons]
+        rcases List.mem_cons.mp hv with rfl | hm
+        · have : Obs.oneHot n v = none := by unfold Obs.oneHot; rw [if_neg (by omega)]
+          simp [this, Obs.allOk]
+        · cases h : Obs.oneHot n a <;> simp [Obs.allOk, ih hm]
+    rw [this]; rfl
+
+/-- **Batch dimension with values**: `maybe_add_batch_dim` (ndarray and tensor branch alike) never touches the data -/
+theorem C15_source_translation_batch_dim_values {α} (nd : Bool) (s p : List Nat) (d : List α) (t : T α)
+    (h : maybe_add_batch_dim nd ⟨s, d⟩ p = .ok t) :
+    t.data = d ∧ ∃ t', Obs.maybeAddBatchDim ⟨s, []⟩ p = .ok t' ∧ t.shape = t'.shape := by
+  rw [gen_maybe_add_batch_dim_eq nd s d [] p] at h
+  cases hm : Obs.maybeAddBatchDim ⟨s, []⟩ p with
+  | error e => rw [hm] at h; cases e <;> cases h
+  | ok t' => rw [hm] at h; cases h; exact ⟨rfl, t', rfl, rfl⟩
+
+/-- **Agent ids**: the group of an agent is its id without the last `_` field (an id without `_` is its own group);
+    positions follow `agent_ids`, unknown ids last — so `drone_10` belongs to `drone` and sits at ITS index, not at
+    its lexicographic place -/
+theorem C15_source_translation_agent_ids (ids : List String) (a : String) :
+    get_homo_id a = .ok (Obs.homoId a) ∧ _agent_position ids a = .ok (Obs.agentPosition ids a) ∧
+    (a ∉ ids → _agent_position ids a = .ok ids.length) ∧
+    (∀ i (hi : i < ids.length), ids.Nodup → _agent_position ids ids[i] = .ok i) := by
+  refine ⟨gen_get_homo_id_eq a, gen_agent_position_eq ids a, ?_, ?_⟩
+  · intro hn
+    rw [gen_agent_position_eq]
+    have : ids.findIdx? (· == a) = none := by
+      rw [List.findIdx?_eq_none_iff]; intro x hx; simp; rintro rfl; exact hn hx
+    simp [Obs.agentPosition, this]
+  · intro i hi hnd
+    rw [gen_agent_position_eq]
+    have : ids.findIdx? (· == ids[i]) = some i := by
+      rw [List.findIdx?_eq_some_iff_getElem]
+      refine ⟨hi, by simp, ?_⟩
+      intro j hj
+      have := List.pairwise_iff_getElem.mp hnd j i (by omega) hi hj
+      simpa using this
+    simp [Obs.agentPosition, this]
+
+/-- **Shared policy: assemble then disassemble over the generated numeric core.**  `np.stack` + `reshape(A·E, -1)` of
+    the agents' outputs followed by `reshape(A, E, -1)[i]` gives agent `i` exactly its own output back, for every
+    number of agents, environments and features -/
+theorem C15_source_translation_shared_policy_inverse {α} (sh : List Nat) (xs : List (List α)) (hne : xs ≠ [])
+    (E w : Nat) (hE : 0 < E) (hw : 0 < w) (hlen : ∀ x ∈ xs, x.length = E * w) (t : T α)
+    (h : (do let st ← npStack (xs.map (fun x => (⟨sh, x⟩ : T α))) 0
+             npReshape st [some (xs.length * E), none] : M (T α)) = .ok t) (i : Nat) (hi : i < xs.length) :
+    t.data = Obs.assembleHomogeneous xs ∧
+    (do let r ← npReshape t [some xs.length, some E, none]; tIdx0 r i : M (T α)) = .ok ⟨[E, w], xs.getD i []⟩ := by
+  have hd := gen_assemble_core sh xs hne E t h
+  refine ⟨hd, ?_⟩
+  have hA : 0 < xs.length := List.length_pos_iff.mpr hne
+  have hlen' : t.data.length = xs.length * (E * w) := by
+    rw [hd, Obs.assembleHomogeneous, Obs.length_flatten_const (E * w) xs hlen]
+  rw [gen_disassemble_core t xs.length E i hA hE w hlen' hi, hd,
+    Obs.disassemble_assemble xs (E * w) (Nat.mul_pos hE hw) hne hlen]
+
+/-- **Centralised critic over the generated code**: `torch.cat(obs, dim=1)` of the agents' `[B, d_a]` tensors, in the
+    order of the dict's values, is the model's `stackCritic`; row `b` of it is built from row `b` of every agent -/
+theorem C15_source_translation_critic_rows (B : Nat) (ts : List (Obs.Tensor × Nat)) (hts : ts ≠ [])
+    (h : ∀ td ∈ ts, 0 < td.2 ∧ td.1.data.length = B * td.2) (b : Nat) (hb : b < B) :
+    torchCat (ts.map (fun td => (⟨[B, td.2], td.1.data⟩ : T Rat))) 1 =
+      .ok ⟨[B, (ts.map (·.2)).sum], (Obs.stackCritic B ts).data⟩ ∧
+    ((Obs.stackCritic B ts).rows ((ts.map (·.2)).sum))[b]? =
+      some ((ts.map (fun td => (td.1.rows td.2).getD b [])).flatten) :=
+  ⟨gen_stack_critic_vec_eq B ts hts (fun td htd => (h td htd).1), (Obs.C15_stack_critic_rows B ts hts h b hb).1⟩
+
+/-! non-vacuity over the generated definitions -/
+example : _agent_position ["z_1", "z_0", "b_0"] "b_0" = .ok 2 := by decide
+/-- a batch of two images over a Box with a DEGENERATE pixel (bounds `[0, 0]`) is accepted by the generated code -/
+example : ∃ t, apply_image_normalization true (tX ⟨[2] ++ [1, 1, 2], [[0, 51], [0, 255]].flatten⟩)
+    (boxOf [1, 1, 2] ([0, 0].map some) ([0, 255].map some)) = .ok t :=
+  ⟨_, (C15_source_translation_normalize true [1, 1, 2] (by decide) [0, 0] [0, 255] rfl rfl [2]
+    [[0, 51], [0, 255]] (by simp [Obs.numel])).1⟩
+example : Obs.normalizeFixed 0 255 51 = 1 / 5 ∧ Obs.normalizeFixed 0 0 0 = 0 := by
+  norm_num [Obs.normalizeFixed, Obs.scaleOf]
+
+end C15ValSrc
